@@ -69,7 +69,10 @@ def build_overlay(unit_files, tag="k", extra_rewrites=None, copy_from=None, extr
     src_repo = copy_from or common.REPO
     shutil.copytree(os.path.join(src_repo, "src"), os.path.join(root, "src"))
     for f in ("Cargo.toml", "Cargo.lock"):
-        shutil.copy(os.path.join(src_repo, f), os.path.join(root, f))
+        src = os.path.join(src_repo, f)
+        if not os.path.exists(src) and f == "Cargo.lock" and os.path.exists("/repo/Cargo.lock"):
+            src = "/repo/Cargo.lock"      # (untracked file: a snapshot of HEAD does not carry it)
+        shutil.copy(src, os.path.join(root, f))
     # benches are declared in Cargo.toml
     if os.path.isdir(os.path.join(src_repo, "benches")):
         shutil.copytree(os.path.join(src_repo, "benches"), os.path.join(root, "benches"))
